@@ -32,6 +32,9 @@ type Boundary struct {
 	Wrong  int `json:"wrong"`  // != 0: first resume at size+Wrong and send Junk bytes (must be refused)
 	Junk   int `json:"junk"`   // number of junk bytes sent at the wrong offset (>= 1)
 	HowEnd int `json:"howend"` // how the wrong-offset writer is driven: 0 write+close, 1 write+commit
+	// Interlope: between opening the wrong-offset writer and its first Write another handle is opened on
+	// the same session (1: at offset -1, as the server's upload-status request does; 2: at the right offset)
+	Interlope int `json:"interlope,omitempty"`
 }
 
 type Script struct {
@@ -146,6 +149,17 @@ func run(s Script, v *vt.V) {
 				w2, err := reg.PushBlobChunkedResume(ctx, s.Repo, id, off, s.Hint)
 				perr = err
 				if err == nil {
+					if b.Interlope != 0 {
+						o3 := int64(-1)
+						if b.Interlope == 2 {
+							o3 = int64(written)
+						}
+						if w3, err := reg.PushBlobChunkedResume(ctx, s.Repo, id, o3, s.Hint); err == nil {
+							w3.Size()
+							w3.Close()
+						}
+						v.Class("wrong-offset-with-second-handle")
+					}
 					_, perr = w2.Write(junk)
 					if perr != nil && b.Junk%2 == 0 {
 						// a refused writer stays refused: a second attempt on the same
@@ -348,6 +362,7 @@ func genScript(t *rapid.T) Script {
 				b.Wrong = rapid.SampledFrom([]int{1, 1, 2, 100, -1, -2}).Draw(t, "delta")
 				b.Junk = rapid.SampledFrom([]int{1, 2, 10, 9000}).Draw(t, "junk")
 				b.HowEnd = rapid.IntRange(0, 1).Draw(t, "howEnd")
+				b.Interlope = rapid.SampledFrom([]int{0, 0, 1, 2}).Draw(t, "interlope")
 			}
 			s.Boundaries = append(s.Boundaries, b)
 		}
@@ -359,7 +374,7 @@ func genScript(t *rapid.T) Script {
 var prop = &vt.Prop[Script]{
 	ID:   "C04",
 	Name: "ChunkedUpload",
-	Rule: "content lengths {0,1,2,3, c-1,c,c+1, 2c-1,2c,2c+1, 3c+2 (c=8192); thorough also around 64 KiB} and small; partition into <=6 Write calls (sizes incl. 0, 1, c-1..c+1, larger than the content); chunk hint {-1,0,1,100,8191,8192,8193,20000}; any subset of write boundaries closed+resumed with explicit offset or -1 (-1 with exactly one byte received excluded as stated); optional probe at size+delta with junk data that must be refused with ErrRangeInvalid (416 on every hop) and leave the upload unaltered; right/wrong commit digest; stacks {mem, 1 hop, 2 hops, unify(mem,mem) both policies, http over unify, unify over http, debug+http(NoSinglePost)+debug}; oracle = Size() after every step, commit descriptor, bytes read back from the top and from every member registry; non-trivial = >=1 resume, >=2 writes or length <= 2; distinct = whole script",
+	Rule: "content lengths {0,1,2,3, c-1,c,c+1, 2c-1,2c,2c+1, 3c+2 (c=8192); thorough also around 64 KiB} and small; partition into <=6 Write calls (sizes incl. 0, 1, c-1..c+1, larger than the content); chunk hint {-1,0,1,100,8191,8192,8193,20000}; any subset of write boundaries closed+resumed with explicit offset or -1 (-1 with exactly one byte received excluded as stated); optional probe at size+delta with junk data that must be refused with ErrRangeInvalid (416 on every hop) and leave the upload unaltered, also when a second handle is opened on the session (at -1 or at the right offset) between opening the wrong-offset writer and its first Write; right/wrong commit digest; stacks {mem, 1 hop, 2 hops, unify(mem,mem) both policies, http over unify, unify over http, debug+http(NoSinglePost)+debug}; oracle = Size() after every step, commit descriptor, bytes read back from the top and from every member registry; non-trivial = >=1 resume, >=2 writes or length <= 2; distinct = whole script",
 	Gen:  genScript,
 	Run:  run,
 }
